@@ -65,6 +65,15 @@ def resolve_kw(kw):
     """Analyzer keyword arguments with a 'rev:<name>' / 'rot:<name>' scheduler replaced by the callable (kw itself stays JSON-able)."""
     if isinstance(kw.get("scheduler"), str) and ":" in kw["scheduler"]:
         kw = dict(kw); kw["scheduler"] = _permuted_scheduler(kw["scheduler"])
+    if isinstance(kw.get("win"), str) and kw["win"].startswith("cal:"):
+        kw = dict(kw)
+        if kw["win"] == "cal:np_kaiser":
+            kw["win"] = np.kaiser
+        elif kw["win"] == "cal:sp_kaiser":
+            from scipy.signal.windows import kaiser as _spk
+            kw["win"] = _spk
+        elif kw["win"] == "cal:np_hanning":
+            kw["win"] = np.hanning
     return kw
 
 
@@ -77,7 +86,7 @@ def plan_order_check(r, info):
     kw0 = dict(info["kw"]); kw0["scheduler"] = sch.split(":")[1]
     data = np.vstack([info["x"], info["y"]]) if info["cross"] else info["x"]
     with np.errstate(all="ignore"):
-        r0 = SpectrumAnalyzer(data, info["fs"], **kw0).compute()
+        r0 = SpectrumAnalyzer(data, info["fs"], **resolve_kw(kw0)).compute()
     out = []
     o0 = np.argsort(np.asarray(r0.f), kind="stable"); o1 = np.argsort(np.asarray(r.f), kind="stable")
     if len(o0) != len(o1) or not np.array_equal(np.asarray(r0.f)[o0], np.asarray(r.f)[o1]):
@@ -105,6 +114,9 @@ def make_result(rng, cross=None, which=None, kind=None, backend="numba"):
     win = rng.choice(["kaiser", "hann"])
     kw = dict(Jdes=rng.choice([10, 30]), Kdes=rng.choice([2, 10]), order=order, scheduler=sched, win=win, psll=rng.choice([60, 120, 200]), backend=backend,
               olap=rng.choice(["default", 0.5, 0.0]), bmin=rng.choice([1.0, 2.0]), Lmin=rng.choice([1, 16]))
+    if rng.random() < 0.2:
+        # the window passed as the library function itself instead of by name (a documented way of selecting it)
+        kw["win"] = {"kaiser": rng.choice(["cal:np_kaiser", "cal:sp_kaiser"]), "hann": "cal:np_hanning"}[win]
     if which == "equalK":
         # every bin has one segment: Lmin = N
         kw.update(Lmin=N, scheduler=rng.choice(["ltf", "vectorized_ltf"]))
